@@ -10,7 +10,8 @@ SPEC = dict(
          "text and attributes, the 5 entities and numeric references, '>' and '/>' inside attribute values, nested namespaces, "
          "white-space keep-alives between stanzas, several stanzas per read, with/without stream close) x partitions of the BYTE "
          "sequence: every 2-way split of every stream (exhaustive; S streams_with_all_2_splits), one byte at a time, seeded random "
-         "k-way splits (k<=7 quick, k<=13 thorough), thorough: every 3-way split of the 5 shortest streams. Each chunk travels "
+         "k-way splits (25 per stream, k<=7 quick; 1000 per stream, k<=13 thorough), thorough: every 3-way split of the 5 shortest streams "
+         "and of the 4 streams with 2-/3-/4-byte characters; plus every 2-way split of two streams with unusual legal headers. Each chunk travels "
          "through a real loopback TCP connection into XmppSocket (one read per chunk, verified), and the events of that read "
          "(signal + canonical element + buffered/cached lengths) are compared line by line with the Lean model fed the same bytes; "
          "text-level splits incl. empty reads go through processData directly; 16 probe sequences exercise the two regular "
